@@ -6,7 +6,7 @@ from hypothesis import strategies as st
 # name -> type; the decorated function takes all ARGS; the condition lambda takes the ones it uses
 ARGS = {"x": "int", "n": "int", "s": "str", "xs": "ilist", "ys": "ilist", "ss": "iset", "d": "sdict", "t": "itup",
         "o": "obj", "m": "mat", "id": "int", "G": "int", "zs": "sset"}
-CLOSURE = {"C": "int", "CS": "str", "CL": "ilist"}
+CLOSURE = {"C": "int", "CS": "str", "CL": "ilist", "H": "int"}  # H exists as a module global too (closure wins)
 GLOBALS = {"G": "int", "GS": "str", "GL": "ilist", "Y": "int"}
 EXTRA_ARGS = {"Y": "int"}  # a parameter of the function that the condition never takes; collides with the global Y
 CMP_OPS = ["<", "<=", ">", ">=", "==", "!="]
@@ -108,10 +108,14 @@ class Gen:
     def t_bool(self, depth):
         if depth <= 0:
             return "%s %s %s" % (self.t_int(0), self.pick(CMP_OPS), self.t_int(0))
-        k = self.draw(st.integers(0, 14))
+        k = self.draw(st.integers(0, 15))
         if k == 12:
             nm = self.name("int")
             return self.pick(["(%s is None)", "(ident(%s) is None)", "(%s is not None)"]) % nm
+        if k == 15:
+            # reflexive comparison: both sides equal, so <=, >=, == hold and <, >, != do not
+            e = self.expr("int", depth - 1) if not self.probes else self.name("int")
+            return "ident(%s %s %s)" % (e, self.pick(CMP_OPS), e)
         if k == 13:
             self.features.add("all-any")
             tgt = self.pick([t for t in ["v", "u", "q"] if t not in self.targets])
@@ -349,8 +353,8 @@ def build_inputs(desc):
     return out
 
 
-CLOSURE_VALUES = {"C": 3, "CS": "cz", "CL": [1, 2, 3]}
-GLOBAL_VALUES = {"G": 5, "GS": "gab", "GL": [4, 0, -1], "Y": 10}
+CLOSURE_VALUES = {"C": 3, "CS": "cz", "CL": [1, 2, 3], "H": 200}
+GLOBAL_VALUES = {"G": 5, "GS": "gab", "GL": [4, 0, -1], "Y": 10, "H": 100}
 
 
 @st.composite
